@@ -149,6 +149,22 @@ def constant_cases(rng, tier, op='encode'):
                     continue
                 add(ctx + [b] + ctx, modes, 'alphabet-border')
                 add(ctx + ctx + [b], modes, 'alphabet-border')
+    # a Base256 run with a two-byte length field, left by a mode switch, followed by a run of another scheme that ends at a symbol
+    # capacity (where the planner's count of written codewords after the long run decides an end-of-data rule), with short tails
+    cp = sorted(set(caps()))
+    kinds = {'edifact': (0.75, 1), 'c40': (2.0 / 3, 1), 'text': (2.0 / 3, 1), 'x12': (2.0 / 3, 1)}
+    for R in ((251,) if tier == 'quick' else (250, 251, 300)):
+        run = [rng.choice(ALPH['high']) for _ in range(R)]
+        used = R + 3
+        for cap in [c for c in cp if c > used + 4][: 1 if tier == 'quick' else 2]:
+            for kind, (per, latch) in sorted(kinds.items()):
+                for delta in range(-4, 3):
+                    k = int((cap - used - latch) / per) + delta
+                    if k <= 0:
+                        continue
+                    body = [rng.choice(ALPH[kind]) for _ in range(k)]
+                    for tail in ([], [97], [97, 98], [126], [49, 50]):
+                        add(run + body + tail, 63, 'b256-then-' + kind, wl=DEFAULT)
     for n in range(1, 9):
         add([48 + (k % 10) for k in range(n)], 63, 'digit-pairs')
         add([48 + (k % 10) for k in range(n)] + [65], 63, 'digit-pairs')
